@@ -263,7 +263,9 @@ fn c03_key_sub(cas: bool, req: u8) {
         assert!(matches!(&w, Ok(v) if v.as_bool() == Some(e.b)), "C03: delete returns the stored value");
         core::mem::forget(w);
         assert!(next_state(&mut rx) == (DELETED, Some(e.b)), "C03: a delete is delivered as Deleted with the old value");
-        assert!(wb.get(&s("a")).is_err(), "C01: the key is gone");
+        let g = wb.get(&s("a"));
+        assert!(g.is_err(), "C01: the key is gone");
+        core::mem::forget(g);
     } else if req == 1 {
         let w = aw!(wb.publish(s("a"), Value::Bool(nb)));
         assert!(w.is_ok(), "C03: publish accepted");
